@@ -108,6 +108,32 @@ CHECKS = {
     design='7/C15',
     note='alphabet: ASCII + U+0080..U+024F + CJK (no Greek: final-sigma rule); str methods modelled; 1 known finding.',
     technique='Coq proof (list induction; finite table facts by vm_compute lifted to all strings) + generated case table + correspondence'),
+ 'C11': dict(
+    text='Coq theorems for item lists of any length and nesting over a transcription of iflatten/inumbers/parse_criteria and '
+         'the aggregates (statistics functions as textbook definitions in exact arithmetic): regrouping invariance for every '
+         'aggregate, SUM/PRODUCT/AVERAGE/COUNT/VAR/VAR.P/MIN/MAX = definitions, MEDIAN/LARGE read off a sorted permutation, '
+         'permutation invariance of sums/products/means/variances/min/max, an error item is the result, SUMIF/COUNTIF select '
+         'exactly the matching items, *IFS rows = conjunction of all criteria, empty selections. Tied to the code by direct '
+         'calls on random grouped lists and an exact-rational oracle through Parser.parse (definitions, regroupings, '
+         'permutations, criteria, error items, SLOPE, STDEV/GEOMEAN numerically).',
+    design='7/C11',
+    note='partial: permutation invariance of MEDIAN/LARGE/MODE, and STDEV*/GEOMEAN (sqrt/log), are validated by the oracle, '
+         'not proved; statistics module modelled by definitions; wildcard patterns without "["; floats exact (dyadic items).',
+    technique='Coq proof (list induction, Permutation, sorted insertion) + random grouped-list correspondence + exact-rational oracle'),
+ 'C17': dict(
+    text='Coq theorems: ROUND/ROUNDUP/ROUNDDOWN as integers in units of 10^-digits with the three characterising '
+         'inequalities, CEILING/FLOOR adjacent multiples on the documented side for every sign combination, INT = floor, '
+         'EVEN/ODD, QUOTIENT truncation, MOD identity and sign, SIGN, FACT/FACTDOUBLE recursions, errors for zero divisors and '
+         'negative factorials (exact rational arithmetic); HEX2DEC(DEC2HEX n) = n on the whole 40-bit range and '
+         'DECIMAL(BASE(n,r),r) = n for every radix 2..36 by unbounded digit-string lemmas, letter digits, rejections; '
+         'ROMAN/ARABIC by exhaustive evaluation of the finite domain 1..3999 x forms 0..4 (bound stated). Tied to the code by '
+         'correspondence (ints/dyadics exact, ROMAN/ARABIC exhaustive, radix boundaries) and an oracle through Parser.parse '
+         'with a per-call time limit (termination).',
+    design='7/C17',
+    note='ideal arithmetic for the rounding functions (decimal fractions by oracle with both binary and decimal readings); '
+         'int(text, base) modelled on plain digit strings; termination of the real loops is observed (time limit), the model '
+         'functions are total by construction.',
+    technique='Coq proof (Q floor/ceiling lemmas with lra/lia, digit-string round trips, finite sweep by vm_compute) + correspondence'),
 }
 PENDING = {}
 def main():
